@@ -286,7 +286,7 @@ def pick_sizes(ctx):
     large = [s for s in allsz if max(s) > 10]
     rng.shuffle(large)
     pick = []
-    for reg, k in (('coprime', 10), ('multiple', 10), ('table', 14)):
+    for reg, k in (('coprime', 6), ('multiple', 6), ('table', 10)):
         pick += [s for s in large if regime(s) == reg and s != (15, 15)][:k]
     out = small + pick + [(15, 15), (14, 15), (10, 15), (15, 10), (12, 15), (9, 12), (8, 12), (12, 8)]
     return [s for i, s in enumerate(out) if s not in out[:i]]
@@ -309,7 +309,7 @@ def errors_for(ctx, code, size):
     n = code.n_k_d[0]
     big = n > 300
     out = [('none', [])]
-    k = 2 if (quick and big) else 3 if quick else 6
+    k = 2 if big else 3 if quick else 4
     for _ in range(k):
         out.append(('light', sorted(rng.sample(range(n), rng.randint(1, min(4, n))))))
     for _ in range(k):
@@ -323,7 +323,7 @@ def errors_for(ctx, code, size):
         if table and L <= 6:
             subs = [[line[i] for i in range(L) if (msk >> i) & 1] for msk in range(1, 1 << L)]
         else:
-            cnt = (8 if quick else 48) if table else (2 if quick else 8)
+            cnt = (8 if quick else 24) if table else (2 if quick else 5)
             if big:
                 cnt = max(2, cnt // 4)
             subs = []
